@@ -14,8 +14,8 @@ def short(s, n=150):
 
 
 def main():
-    print("| id | property | change (needs to manifest) | demo clean/patched | suite | caught by (quick, seed 0) | first report |")
-    print("|---|---|---|---|---|---|---|")
+    print("| id | property | change (needs to manifest) | demo clean/patched | suite | caught by (quick, seed 0) | also caught by (cross run) | first report |")
+    print("|---|---|---|---|---|---|---|---|")
     for d in sorted(os.listdir(os.path.join(HERE, "seeded"))):
         mp = os.path.join(HERE, "seeded", d, "meta.json")
         if not os.path.exists(mp):
@@ -30,10 +30,15 @@ def main():
                 first = short(v["first"][0], 70)
                 break
         needs = m.get("needs_to_manifest") or m.get("needs") or ""
+        also = ""
+        cp = os.path.join(HERE, "seeded", d, "cross.json")
+        if os.path.exists(cp):
+            cj = json.load(open(cp))
+            also = ", ".join(k for k, v in cj.get("checks", {}).items() if v.get("rc") == 1 and k != m.get("property"))
         print(f"| {d}{' (r2)' if m.get('round') == 2 else ''} | {m.get('property')} | {short(m.get('summary', ''), 140)} — *{short(needs, 110)}* | "
-              f"{lc.get('demo_clean_rc')}/{lc.get('demo_patched_rc')} | {short(lc.get('suite', ''), 12)} | {caught} | {first} |")
+              f"{lc.get('demo_clean_rc')}/{lc.get('demo_patched_rc')} | {short(lc.get('suite', ''), 12)} | {caught} | {also} | {first} |")
         if m.get("lead_note"):
-            print(f"| | | ↳ {short(m['lead_note'], 400)} | | | | |")
+            print(f"| | | ↳ {short(m['lead_note'], 400)} | | | | | |")
     print()
     print("| id | property | harmless rewrite | alarm? |")
     print("|---|---|---|---|")
